@@ -15,7 +15,7 @@ Call == /\ l <= Len(Rec) /\ Rec[l].ev = "scall"
                ok == /\ e.st = "ok" /\ e.tok = r.tok
                      /\ Len(e.lookups) = Len(toks2)
                      /\ \A i \in 1..Len(toks2) : e.lookups[i] = Lookup(r.data, toks2[i])
-           IN /\ bad' = IF ok THEN bad ELSE Append(bad, <<l, IF e.st = "panic" THEN 5 ELSE 1>>)
+           IN /\ bad' = IF ok THEN bad ELSE (IF Len(bad) >= 5000 THEN bad ELSE Append(bad, <<l, IF e.st = "panic" THEN 5 ELSE 1>>))
               /\ data' = r.data /\ toks' = toks2
         /\ l' = l + 1
 Next == New \/ Call
